@@ -82,9 +82,24 @@ def parse_counterexample(message: str, fn_name: str):
         except SyntaxError:
             continue
         if isinstance(node, ast.Call):
+            env = {}
+
+            def ev(n):
+                # CrossHair writes shared objects as `v1:=<value>` and later mentions as `v1`
+                if isinstance(n, ast.NamedExpr):
+                    v = ev(n.value)
+                    env[n.target.id] = v
+                    return v
+                if isinstance(n, ast.Name) and n.id in env:
+                    return env[n.id]
+                if isinstance(n, (ast.List, ast.Tuple)):
+                    vals = [ev(e) for e in n.elts]
+                    return vals if isinstance(n, ast.List) else tuple(vals)
+                return ast.literal_eval(n)
+
             try:
-                kwargs = {k.arg: ast.literal_eval(k.value) for k in node.keywords}
-                pos = [ast.literal_eval(a) for a in node.args]
+                pos = [ev(a) for a in node.args]
+                kwargs = {k.arg: ev(k.value) for k in node.keywords}
             except Exception:
                 return None
             return pos, kwargs
@@ -154,6 +169,8 @@ def run_task(modname, lemma_name, tier, mode, fkey, known):
                     ok, seen = _profile_functions(lambda: lem.fn(**args))
                 except rt.Hidden:
                     ok, seen = True, set()
+                except Exception:
+                    ok, seen = False, set()      # the lemma raising on a concrete input is a failure like any other
                 functions |= seen
                 if rt.LAST_KEY is None or rt.LAST_KEY not in rt.KNOWN:
                     rt.sample({"native": _jsonable(args)})
@@ -204,11 +221,47 @@ def run_task(modname, lemma_name, tier, mode, fkey, known):
                    reached_native=reached_native, outside=int(rt.OUTSIDE), samples=rt.SAMPLES)
         # native replay of a counterexample (same process, tracing is off now)
         if out.get("args") is not None and mode in ("main", "finding"):
-            out["replay"] = _replay(lem, out["args"])
+            out["replay"] = _replay_fresh(modname, lemma_name, tier, mode, fkey, known, out["args"])
     except BaseException as e:  # noqa
         out.update(state="HARNESS_ERROR", message="".join(traceback.format_exception(e))[-3000:])
     out["wall"] = round(time.time() - t0, 2)
     return out
+
+
+def _replay_fresh(modname, lemma_name, tier, mode, fkey, known, args):
+    """replay in a fresh interpreter: state left in this worker by the exploration (caches, hooks, module globals
+    of the code under test) must neither mask nor fake a reproduction"""
+    import subprocess
+    import tempfile
+    spec = {"modname": modname, "lemma": lemma_name, "tier": tier, "mode": mode, "fkey": fkey, "known": list(known), "args": _jsonable(args)}
+    with tempfile.NamedTemporaryFile("w", suffix=".json", delete=False) as f:
+        json.dump(spec, f)
+        path = f.name
+    try:
+        r = subprocess.run([sys.executable, "-c",
+                            "import sys; sys.path.insert(0, %r); from vf.engine import _replay_child; _replay_child(%r)" % (VERIF, path)],
+                           capture_output=True, text=True, timeout=600)
+        for line in reversed(r.stdout.splitlines()):
+            if line.startswith("REPLAY-RESULT "):
+                return json.loads(line[len("REPLAY-RESULT "):])
+        return {"reproduced": False, "what": "replay child gave no result: " + (r.stderr or r.stdout)[-400:], "via": "error"}
+    except Exception as e:
+        return {"reproduced": False, "what": "replay child failed: %r" % (e,), "via": "error"}
+    finally:
+        os.unlink(path)
+
+
+def _replay_child(path):
+    with open(path) as f:
+        spec = json.load(f)
+    sys.path.insert(0, VERIF)
+    from vf import rt
+    rt.MODE, rt.FKEY, rt.KNOWN = spec["mode"], spec["fkey"], frozenset(spec["known"])
+    mod = importlib.import_module(spec["modname"])
+    lem = {l.name: l for l in mod.lemmas(spec["tier"])}[spec["lemma"]]
+    r = _replay(lem, _unjson(spec["args"]))
+    r["via"] = r.get("via", "") + " (fresh interpreter)"
+    print("REPLAY-RESULT " + json.dumps(r))
 
 
 def _replay(lem, args):
